@@ -133,6 +133,7 @@ func TestVerifSweepC07(t *testing.T) {
 					points := 0
 					for at := 0; ; at++ {
 						reapLive := false
+						repairPoints := map[int]int{} // partial state of the first crash -> crash points of the repair
 						for at2 := 0; ; at2++ {
 							live := false
 							vals := map[string]any{"older": vNum(older), "fullWALs": vNum(fullWALs), "incs": vNum(incs),
@@ -147,13 +148,14 @@ func TestVerifSweepC07(t *testing.T) {
 									return
 								}
 								live = true
+								repairPoints[vSweepFirstPartial] = at2
 								if at2 == 0 {
 									t.Logf("older=%d fullWALs=%d incs=%d noVerify=%d: reap crash point %d (%s) %v", older, fullWALs, incs, noVerify, at+1, vSweepLastOp, v["partial0"])
 								}
 							})
 							if !live {
-								if at2 > 0 {
-									fmt.Println("VERIF-PRINT: PTS", older, 0, fullWALs, incs, 1, noVerify == 1, at+1, "<=", at2-1)
+								for p0, n2 := range repairPoints {
+									fmt.Println("VERIF-PRINT: PTS", older, 0, fullWALs, incs, 1, noVerify == 1, at+1, p0, n2)
 								}
 								break
 							}
